@@ -133,7 +133,10 @@ var clsProfiles = []clsProfile{
 		k.set(vpCbAfterStore0, 600, 300*time.Microsecond, 80)
 	}},
 	{"close-enter", func(k *ctl) { k.set(vpStreamCloseEnter, 600, 200*time.Microsecond, 70) }},
+	// close() held between its state load and its CAS: the peer's half-close or a starting callback falls into the window
+	{"close-loaded", func(k *ctl) { k.set(vpStreamCloseLoaded, 500, 100*time.Microsecond, 80) }},
 	{"mixed", func(k *ctl) {
+		k.set(vpStreamCloseLoaded, 300, 60*time.Microsecond, 60)
 		k.set(vpStreamCloseCASed, 400, 200*time.Microsecond, 60)
 		k.set(vpStreamCloseBeforeNotify, 400, 200*time.Microsecond, 60)
 		k.set(vpHalfClosed, 300, 100*time.Microsecond, 60)
@@ -1604,7 +1607,8 @@ func b2i(b bool) int64 {
 func clsWindowEntries(k *ctl) (n uint64) {
 	// second point of a window -> the points that precede it in the goroutine's own path
 	windows := map[int][]int{
-		vpStreamCloseCASed:        {vpStreamCloseEnter, vpCbAfterStore0}, // close() runs in Close() or at the end of the callback goroutine
+		vpStreamCloseLoaded:       {vpStreamCloseEnter, vpCbAfterStore0, vpStreamCloseLoaded}, // close() runs in Close(), at the end of the callback goroutine, or retries
+		vpStreamCloseCASed:        {vpStreamCloseLoaded},
 		vpStreamCloseBeforeNotify: {vpStreamCloseCASed},
 		vpCbAfterStore0:           {vpCbBeforeStore0},
 		vpCbBeforeRecheck:         {vpCbAfterStore0},
@@ -1765,7 +1769,7 @@ func checkClose(c *checkCtx) {
 	perFrom := map[string]int{}
 	var execs, nontriv int
 	hitTotals := map[int]uint64{}
-	points := []int{vpStreamCloseEnter, vpStreamCloseCASed, vpStreamCloseBeforeNotify, vpHalfClosed, vpCbBeforeStore0, vpCbAfterStore0, vpCbBeforeRecheck,
+	points := []int{vpStreamCloseEnter, vpStreamCloseLoaded, vpStreamCloseCASed, vpStreamCloseBeforeNotify, vpHalfClosed, vpCbBeforeStore0, vpCbAfterStore0, vpCbBeforeRecheck,
 		vpFallbackBeforeSend, vpReadMoreBeforeWait}
 	stop := false
 	for t := 0; t < timings && !stop; t++ {
